@@ -192,11 +192,9 @@ func GetNode(children []*Node, path string) (*Node, bool) {
 	pathSplit := strings.SplitN(path, "/", 2)
 	searchName := pathSplit[0]
 
-	left := 0
-	right := len(children)
-	for {
-		middle := (left + right) / 2
-		node := children[middle]
+	// children are stored in Git tree order (directories sort as "name/"),
+	// which is not the order of plain names, so look at every child
+	for _, node := range children {
 		if node.Name == searchName {
 			if len(node.Children) == 0 {
 				return node, true
@@ -206,14 +204,6 @@ func GetNode(children []*Node, path string) (*Node, bool) {
 			} else {
 				return node, true
 			}
-		} else if node.Name < searchName {
-			left = middle + 1
-		} else {
-			right = middle
-		}
-
-		if right-left < 1 {
-			break
 		}
 	}
 
